@@ -55,11 +55,33 @@ func ReachWith(fn *ssa.Function, cut map[Edge]bool, decide func(*ssa.If) (int, b
 
 // ReachExec also returns the executable edges.
 func ReachExec(fn *ssa.Function, cut map[Edge]bool, decide func(*ssa.If) (int, bool)) (map[*ssa.BasicBlock]bool, map[Edge]bool) {
+	return reachExec(fn, cut, decide, nil)
+}
+
+// ReachFrom is Reach for the part of a run that follows one edge: the blocks reachable after control has taken
+// `start`, with phis resolved along the edges executed since then (a phi of a block not re-entered since keeps an
+// unknown value).  It answers "once this branch was taken, can that exit still happen?".
+func ReachFrom(fn *ssa.Function, start Edge, cut map[Edge]bool) map[*ssa.BasicBlock]bool {
+	r, _ := reachExec(fn, cut, nil, &start)
+	return r
+}
+
+// ReachFromExec also returns the edges executed after start.
+func ReachFromExec(fn *ssa.Function, start Edge, cut map[Edge]bool) (map[*ssa.BasicBlock]bool, map[Edge]bool) {
+	return reachExec(fn, cut, nil, &start)
+}
+
+func reachExec(fn *ssa.Function, cut map[Edge]bool, decide func(*ssa.If) (int, bool), start *Edge) (map[*ssa.BasicBlock]bool, map[Edge]bool) {
 	if len(fn.Blocks) == 0 {
 		return nil, nil
 	}
 	exec := map[Edge]bool{}
 	reach := map[*ssa.BasicBlock]bool{fn.Blocks[0]: true}
+	if start != nil {
+		reach = map[*ssa.BasicBlock]bool{start.To(): true}
+		exec[*start] = true
+	}
+	visiting := map[*ssa.Phi]bool{}
 	var eval func(v ssa.Value, depth int) lat
 	eval = func(v ssa.Value, depth int) lat {
 		if depth > 8 {
@@ -89,6 +111,16 @@ func ReachExec(fn *ssa.Function, cut map[Edge]bool, decide func(*ssa.If) (int, b
 		case *ssa.Phi:
 			res := undef
 			b := x.Block()
+			if start != nil && !reach[b] {
+				return over // computed before the start edge was taken
+			}
+			// a loop-carried flag refers to itself through the back edge: the value under evaluation
+			// contributes nothing new (optimistic, as in SCCP)
+			if visiting[x] {
+				return undef
+			}
+			visiting[x] = true
+			defer delete(visiting, x)
 			for i, p := range b.Preds {
 				// is the edge p -> b executable?  The k-th occurrence of p in b.Preds is the k-th
 				// occurrence of b in p.Succs.
@@ -230,14 +262,40 @@ func (c *Cond) EdgeWhen(equal bool) Edge {
 
 // Classify normalises the condition of an If instruction.  ok=false when the idiom is not recognised.
 func Classify(i *ssa.If) (*Cond, bool) {
-	c := &Cond{If: i}
-	v := i.Cond
+	c, ok := ClassifyValue(i.Cond)
+	if ok {
+		c.If = i
+	}
+	return c, ok
+}
+
+// ClassifyValue normalises a boolean value the same way (If is nil): used for comparisons that are returned
+// by a helper instead of being branched on.
+func ClassifyValue(v ssa.Value) (*Cond, bool) {
+	c := &Cond{}
 	neg := false
 	for {
 		if u, ok := v.(*ssa.UnOp); ok && u.Op == token.NOT {
 			neg = !neg
 			v = u.X
 			continue
+		}
+		// b == true / b != false / b == false / b != true
+		if bo, ok := v.(*ssa.BinOp); ok && (bo.Op == token.EQL || bo.Op == token.NEQ) {
+			other, k, isK := bo.X, bo.Y, false
+			if kc, ok := k.(*ssa.Const); ok && kc.Value != nil && kc.Value.Kind() == constant.Bool {
+				isK = true
+			} else if kc, ok := bo.X.(*ssa.Const); ok && kc.Value != nil && kc.Value.Kind() == constant.Bool {
+				other, k, isK = bo.Y, bo.X, true
+			}
+			if isK {
+				kv := constant.BoolVal(k.(*ssa.Const).Value)
+				if (bo.Op == token.EQL) != kv {
+					neg = !neg
+				}
+				v = other
+				continue
+			}
 		}
 		break
 	}
@@ -389,4 +447,25 @@ func Ifs(fn *ssa.Function) []*ssa.If {
 		}
 	}
 	return out
+}
+
+// StripBoolWrappers removes !x, x == true, x != false, … and returns the underlying boolean value.
+func StripBoolWrappers(v ssa.Value) ssa.Value {
+	for {
+		if u, ok := v.(*ssa.UnOp); ok && u.Op == token.NOT {
+			v = u.X
+			continue
+		}
+		if bo, ok := v.(*ssa.BinOp); ok && (bo.Op == token.EQL || bo.Op == token.NEQ) {
+			if kc, ok := bo.Y.(*ssa.Const); ok && kc.Value != nil && kc.Value.Kind() == constant.Bool {
+				v = bo.X
+				continue
+			}
+			if kc, ok := bo.X.(*ssa.Const); ok && kc.Value != nil && kc.Value.Kind() == constant.Bool {
+				v = bo.Y
+				continue
+			}
+		}
+		return v
+	}
 }
